@@ -68,6 +68,7 @@ func main() {
 			runTotal(cfg, res)
 		case "C20":
 			runHex(cfg, res)
+			runDump(cfg, res)
 		default:
 			fmt.Fprintln(os.Stderr, "unknown property", cfg.prop)
 			os.Exit(3)
